@@ -36,7 +36,15 @@ func (p *Plugin) FilterByNUMANode(ctx context.Context, cycleState fwktype.CycleS
 	if len(numaNodes) == 0 {
 		return fwktype.NewStatus(fwktype.UnschedulableAndUnresolvable, "node(s) missing NUMA resources")
 	}
-	numaNodesStatus := p.resourceManager.GetNodeAllocation(node.Name).GetAllNUMANodeStatus(len(numaNodes))
+	// The status list is indexed by NUMA node id (topologymanager.checkExclusivePolicy), and the ids of a node's
+	// NUMA nodes need not be 0..len-1 (a single node with id 1, ids 0 and 2, ...).
+	maxNUMANodeID := 0
+	for _, id := range numaNodes {
+		if id > maxNUMANodeID {
+			maxNUMANodeID = id
+		}
+	}
+	numaNodesStatus := p.resourceManager.GetNodeAllocation(node.Name).GetAllNUMANodeStatus(maxNUMANodeID + 1)
 	return p.handle.(frameworkext.FrameworkExtender).RunNUMATopologyManagerAdmit(ctx, cycleState, pod, node, numaNodes, policyType, exclusivePolicy, numaNodesStatus)
 }
 
